@@ -14,6 +14,7 @@ import NloptModel.Model.AuglagDriver
 import NloptModel.Model.MlslDriver
 import NloptModel.Model.MmaDriver
 import NloptModel.Model.IsresDriver
+import NloptModel.Model.Rescale
 /-! `nlopt_model <stream>`: line-protocol driver.  Reads operation lines on stdin, prints one
     canonical result line per operation.  Arithmetic is the hardware's (through `Float`). -/
 open Nlopt
@@ -93,6 +94,7 @@ def main (args : List String) : IO UInt32 := do
   | ["glue"] => loop stdin stdout () (glueStep nativeArith); return 0
   | ["inc"] => loop stdin stdout ({} : IncSt) incStep; return 0
   | ["stop"] => loop stdin stdout () (UtilDrv.stopStep nativeArith); return 0
+  | ["rescale"] => loop stdin stdout () (Rescale.step nativeArith); return 0
   | ["crs"] => loop stdin stdout ({} : CrsDrv.DrvSt) (CrsDrv.drvStep nativeArith); return 0
   | ["nm"] => loop stdin stdout ({} : NmDrv.DrvSt) (NmDrv.drvStep nativeArith); return 0
   | ["auglag"] => loop stdin stdout ({} : AuglagDrv.DrvSt) (AuglagDrv.drvStep nativeArith); return 0
